@@ -110,6 +110,8 @@ def run(ctx):
     r15 = ctx.rule("C01.R15", "OPS: the array operations the evaluation is written against (clip, tile, sum, product, where, stack, concatenate, reshape, gather, boolean_mask, einsum, power, divide, sqrt, exp, log, abs, isfinite, outer) on all four backends, interpreted with the array library replaced by role recorders bound with the library's own signatures: each tensorlib method hands the caller's arguments to the library function of THAT operation in their own roles (mask/x/y, x/axis, lo/hi, sequence/axis ...), with the axis given and absent, each clip bound given and absent", "OPS", floor=80)
     from . import backend_ops
     backend_ops.check(ctx, r15)
+    r16 = ctx.rule("C01.R16", "POINT-HISTORY: Model (constructed through its own __init__ over stand-in parts) evaluated twice with ONE parameter buffer whose content was changed in place in between (astensor does not copy an array of the backend's own type): expected_actualdata, expected_data, logpdf, mainlogpdf and constraint_logpdf of the second call are built from the buffer's NEW content", "HISTORY", floor=5)
+    _model_point_history(ctx, r16)
     r11 = ctx.rule("C01.R11", "BUILD: _nominal_and_modifiers_from_spec interpreted END TO END with the real nominal builder and all seven modifier builders on a 3-channel (listed out of order) x 2-sample specification in which every modifier type occurs once or twice and one sample is absent from a channel: nominal rates and every builder tensor follow config.channels x config.samples; a cell is masked in exactly where the sample declares the modifier; undeclared cells carry the neutral data (nominal / 1 / 0); each applier receives its own type's modifiers, the configuration, its own builder data and the batch size", "BUILD", floor=9)
     _build_end_to_end(ctx, r11, reg)
 
@@ -1034,3 +1036,90 @@ def _fresh_defaults(ctx, rid, repo):
         ctx.violated(rid, init, "_ModelConfig.__init__", f"raises {e.exc_name} on a well-formed specification")
     except (Undecided, KeyError, TypeError, ValueError, IndexError, AttributeError) as e:
         ctx.unrecognised(rid, init, "_ModelConfig.__init__", f"not interpretable: {type(e).__name__}: {e}")
+
+
+def _model_point_history(ctx, rid):
+    """Nothing the model remembers about a parameter point may be keyed on the parameter ARRAY's identity."""
+    from ..alg import NotHandled, RaisedInFragment
+    repo = ctx.repo
+    mdl = repo.cls(PDF, "Model")
+    for m_ in mdl.methods.values():
+        ctx.touch(m_)
+    at, c = Poly.atom, Poly.const
+    errs = (Undecided, KeyError, TypeError, ValueError, IndexError, AttributeError)
+
+    def snap(x):
+        if isinstance(x, list):
+            return ",".join(str(to_poly(v)) for v in x)
+        return getattr(x, "name", str(x))
+
+    try:
+        ext = {"__strict__": True, "__elementwise__": True}
+        w = World(ext, module_env={"log": Obj("log"), "exceptions": Obj("exceptions"), "histfactory_set": Obj("histfactory_set"), "schema": Obj("schema"), "copy": Obj("copy")})
+        tl = _tensorlib_obj()
+        cfg_obj = Obj("config", {"nmaindata": c(2), "nauxdata": c(1), "npars": c(2), "auxdata": [at("aux0")]})
+
+        def part_make_pdf(recv, a, k):
+            if isinstance(recv, Obj) and recv.name in ("MAIN_MODEL", "CONSTRAINT_MODEL"):
+                return Obj(f"pdf_of_{recv.name}<{snap(a[0])}>", {"at": snap(a[0]), "part": recv.name}, closed=True)
+            raise NotHandled()
+
+        def simultaneous(a, k):
+            return Obj("SIMULTANEOUS", {"parts": list(a[0])}, closed=True)
+
+        def getitem(base, idx):
+            if isinstance(base, Obj) and base.name == "SIMULTANEOUS":
+                return base.attrs["parts"][int(to_poly(idx).const_value())]
+            raise NotHandled()
+
+        def expected_data(recv, a, k):
+            if isinstance(recv, Obj) and recv.name == "SIMULTANEOUS":
+                return Obj("EXPECTED<" + "|".join(p_.attrs["at"] for p_ in recv.attrs["parts"]) + ">", {}, closed=True)
+            if isinstance(recv, Obj) and "at" in recv.attrs:
+                return Obj(f"EXPECTED<{recv.attrs['at']}>", {}, closed=True)
+            raise NotHandled()
+
+        def log_prob(recv, a, k):
+            if isinstance(recv, Obj) and recv.name == "SIMULTANEOUS":
+                return Obj("LOGPROB<" + "|".join(p_.attrs["at"] for p_ in recv.attrs["parts"]) + f";{snap(a[0])}>", {"shape": (c(1),)}, closed=True)
+            if isinstance(recv, Obj) and "at" in recv.attrs:
+                return Obj(f"LOGPROB<{recv.attrs['at']};{snap(a[0])}>", {}, closed=True)
+            raise NotHandled()
+
+        main, cons = Obj("MAIN_MODEL", {"nominal_rates": Obj("nominal", {"shape": (c(1), c(1), c(1), c(2))})}), Obj("CONSTRAINT_MODEL")
+        w.base.update({
+            "_ModelConfig": lambda a, k: cfg_obj, "_nominal_and_modifiers_from_spec": lambda a, k: ({}, Obj("nominal")), "_MainModel": lambda a, k: main, "_ConstraintModel": lambda a, k: cons,
+            "_tensorviewer_from_sizes": lambda a, k: Obj("fullpdf_tv"), ".has_pdf": lambda recv, a, k: True if recv in (main, cons) else _not_handled(),
+            ".make_pdf": part_make_pdf, "Simultaneous": simultaneous, ".expected_data": expected_data, ".log_prob": log_prob,
+            "get_backend": lambda a, k: (tl, None), "astensor": lambda a, k: a[0], "reshape": lambda a, k: a[0], ".tolist": lambda recv, a, k: recv if isinstance(recv, list) else _not_handled(),
+        })
+        w.module_env["prob"] = Obj("prob")
+        w.add_class(mdl)
+        model = w.new(mdl, [{"channels": []}], {"validate": False})
+        world_getitem = w.externals()["__getitem__"]
+        w.externals()["__getitem__"] = lambda b_, i_: getitem(b_, i_) if isinstance(b_, Obj) and b_.name == "SIMULTANEOUS" else world_getitem(b_, i_)
+    except errs as e:
+        ctx.unrecognised(rid, mdl, "Model over stand-in parts", f"not constructible: {type(e).__name__}: {e}")
+        return
+    from ..listnp import T as _T
+    for mname, args_of in (("expected_actualdata", lambda buf: [buf]), ("expected_data", lambda buf: [buf]), ("mainlogpdf", lambda buf: [[at("m0"), at("m1")], buf]),
+                           ("constraint_logpdf", lambda buf: [[at("a0")], buf]), ("logpdf", lambda buf: [buf, _T([at("m0"), at("m1"), at("a0")])])):
+        if mname not in mdl.methods:
+            continue
+        site = f"{PDF}::Model.{mname} [same parameter buffer, new content]"
+        try:
+            buf = _T([at("q0"), at("q1")])
+            first = w.call_method(model, mname, args_of(buf))
+            buf[:] = [at("r0"), at("r1")]
+            second = w.call_method(model, mname, args_of(buf))
+            f_, s_ = snap(first), snap(second)
+            if "q0" not in f_:
+                ctx.unrecognised(rid, mdl.methods[mname], mname, f"the first result does not mention the parameter point ({f_[:80]})")
+            elif "q0" in s_ or "r0" not in s_:
+                ctx.violated(rid, mdl.methods[mname], f"Model.{mname} after the parameter array was updated in place", f"`{mname}` evaluated a second time with the same parameter array, now holding other values, returns the result of the EARLIER values: something is remembered per array object (astensor does not copy an array of the backend's own type), so the reported rates / densities are not determined by the parameter values", expected="built from (r0, r1)", found=s_[:160])
+            else:
+                ctx.holds(rid, site, s_[:100])
+        except RaisedInFragment as e:
+            ctx.violated(rid, mdl.methods[mname], f"Model.{mname}", f"raises {e.exc_name} on well-formed inputs")
+        except errs as e:
+            ctx.unrecognised(rid, mdl.methods[mname], mname, f"not interpretable: {type(e).__name__}: {e}")
